@@ -79,6 +79,8 @@ type RPC struct {
 	PeerOpt bool                `json:"peer_opt,omitempty"`
 	ChanOpt bool                `json:"chan_opt,omitempty"`
 	Timeout int64               `json:"timeout_ms,omitempty"` // caller context deadline, virtual ms; 0 = none
+	CtxCause  bool              `json:"ctx_cause,omitempty"` // the caller's context is built with WithCancelCause / WithTimeoutCause and ended with an application-defined cause
+	CancelAtReturnUs int        `json:"cancel_at_return_us,omitempty"` // free-running engines: the caller's context is cancelled this many microseconds after the handler decided to return
 	Fuse      string            `json:"fuse,omitempty"` // "h", "c", "both": the handler's / caller's actors run their operations back to back (no quiescence in between)
 	PreCancel bool              `json:"pre_cancel,omitempty"` // the caller's context is already cancelled when the call is issued
 	GrpcTimeout []string        `json:"grpc_timeout,omitempty"` // C18: values of the grpc-timeout request header
